@@ -92,13 +92,13 @@ pub struct Args {
 pub fn parse_args() -> Args {
     let a: Vec<String> = std::env::args().collect();
     let mut args = Args {
-        prop: a.get(1).cloned().unwrap_or_default(),
+        prop: String::new(),
         seed: 1,
         thorough: false,
         out: ".".into(),
         replay: None,
     };
-    let mut i = 2;
+    let mut i = 1;
     while i < a.len() {
         match a[i].as_str() {
             "--seed" => {
